@@ -141,4 +141,78 @@ let () =
         fin emit (Printf.sprintf "c01.bytes cfi debug_frame 1 %s%s" cie (mk_fde "0a" k));
         fin emit (Printf.sprintf "c01.bytes cfi debug_frame 1 %s%s" cie (mk_fde "410a" k))
       ) sizes)
+(* structured additions: package index hash tables (every fill level incl. completely full) and typed
+   expression programs with boundary operands *)
+let () =
+  register "c01.index" ~doc:".debug_cu_index/.debug_tu_index hash tables, versions 2 and 5, slot counts 1..16, every fill level including NO empty slot, colliding ids; looked up for present and absent ids"
+    (fun ~seed ~n emit ->
+      let r = mk_rng seed in
+      let le k v = List.init k (fun i -> (v lsr (8 * i)) land 255) in
+      let mk version slot_count unit_count section_count filled =
+        let hdr = if version = 5 then le 2 5 @ le 2 0 @ le 4 section_count @ le 4 unit_count @ le 4 slot_count
+          else le 4 version @ le 4 section_count @ le 4 unit_count @ le 4 slot_count in
+        let ids = List.init slot_count (fun i -> if i < filled then
+            (match rand_int r 4 with 0 -> le 8 (i + 2) | 1 -> le 4 (rand_int r 256) @ le 4 (1 + rand_int r 7) | _ -> rand_bytes r 7 @ [1 + rand_int r 255])
+          else le 8 0) in
+        let rows = List.init slot_count (fun i -> le 4 (if i < filled then 1 + (i mod (max 1 unit_count)) else 0)) in
+        let kinds = List.init section_count (fun i -> le 4 (1 + i)) in
+        let body = List.init (2 * unit_count * section_count) (fun _ -> le 4 (rand_int r 64)) in
+        hdr @ List.concat ids @ List.concat rows @ List.concat kinds @ List.concat body in
+      List.iter (fun version -> List.iter (fun slot_count ->
+        for filled = 0 to slot_count do
+          List.iter (fun unit_count ->
+            if unit_count <= slot_count then
+              List.iter (fun sec -> fin emit (Printf.sprintf "c01.bytes misc %s %d %s" sec seed
+                (hex_of_ints (mk version slot_count unit_count (1 + rand_int r 3) filled))))
+                ["debug_cu_index"; "debug_tu_index"]) [0; 1; max 0 (slot_count - 1); slot_count]
+        done) [1; 2; 4; 8; 16; 3]) [2; 5];
+      for _ = 1 to n do
+        let sc = pick r [| 1; 2; 4; 8; 16; 32; 5 |] in
+        fin emit (Printf.sprintf "c01.bytes misc debug_cu_index %d %s" seed
+          (hex_of_ints (mk (pick r [| 2; 5 |]) sc (rand_int r (sc + 1)) (1 + rand_int r 4) (pick r [| sc; sc; max 0 (sc - 1); rand_int r (sc + 1) |]))))
+      done);
+  register "c01.expr" ~doc:"expression programs: typed constants with boundary payloads (MIN, -1, 0, 1, MAX per width) combined with every arithmetic/shift/compare op, evaluated with every base-type answer; generic boundary programs; random programs over the full opcode byte range"
+    (fun ~seed ~n emit ->
+      let r = mk_rng seed in
+      let bytes_of w (pat : int) = match pat with
+        | 0 -> List.init w (fun _ -> 0)
+        | 1 -> 1 :: List.init (w - 1) (fun _ -> 0)
+        | 2 -> List.init w (fun _ -> 0xff)                                  (* -1 / MAX unsigned *)
+        | 3 -> List.init (w - 1) (fun _ -> 0) @ [0x80]                       (* signed MIN *)
+        | _ -> List.init (w - 1) (fun _ -> 0xff) @ [0x7f] in                 (* signed MAX *)
+      let ty = ref 0 in
+      let const_type w pat = [0xa4; !ty; w] @ bytes_of w pat in
+      let binops = [| 0x1a; 0x1b; 0x1c; 0x1d; 0x1e; 0x21; 0x22; 0x24; 0x25; 0x26; 0x27; 0x29; 0x2a; 0x2b; 0x2c; 0x2d; 0x2e |] in
+      let unops = [| 0x19; 0x1f; 0x20 |] in
+      (* exhaustive: widths x operand patterns x binary ops, typed *)
+      List.iter (fun w ->
+        for a = 0 to 4 do for b = 0 to 4 do
+          Array.iter (fun op ->
+            (* answer types are chosen by the type offset mod 11: I8 U8 I16 U16 I32 U32 I64 U64 of the right width *)
+            List.iter (fun t -> ty := t;
+              fin emit (Printf.sprintf "c01.expr 8 %d %s" (w * 100 + a * 10 + b) (hex_of_ints (const_type w a @ const_type w b @ [op; 0x9f]))))
+              (match w with 1 -> [1; 2] | 2 -> [3; 4] | 4 -> [5; 6; 9] | _ -> [7; 8; 10]))
+            binops
+        done;
+          Array.iter (fun op ->
+            fin emit (Printf.sprintf "c01.expr 8 %d %s" (w * 10 + a) (hex_of_ints (const_type w a @ [op; 0x9f])))) unops
+        done) [1; 2; 4; 8];
+      (* generic boundary values through const8u/const8s, every address size *)
+      List.iter (fun asz ->
+        for a = 0 to 4 do for b = 0 to 4 do
+          Array.iter (fun op ->
+            fin emit (Printf.sprintf "c01.expr %d 1 %s" asz (hex_of_ints ((0x0e :: bytes_of 8 a) @ (0x0f :: bytes_of 8 b) @ [op; 0x9f]))))
+            binops done done) [1; 2; 4; 8];
+      for _ = 1 to n do
+        let len = 1 + rand_int r 12 in
+        let prog = List.concat (List.init len (fun _ ->
+          match rand_int r 6 with
+          | 0 -> ty := rand_int r 11; const_type (pick r [| 1; 2; 4; 8 |]) (rand_int r 5)
+          | 1 -> [pick r binops]
+          | 2 -> [pick r unops]
+          | 3 -> 0x0e :: bytes_of 8 (rand_int r 5)
+          | 4 -> [0x12 + rand_int r 5]
+          | _ -> [rand_int r 256] @ rand_bytes r (rand_int r 3))) in
+        fin emit (Printf.sprintf "c01.expr %d %d %s" (pick r [| 1; 2; 4; 8 |]) (rand_int r 100000) (hex_of_ints prog))
+      done)
 let init () = ()
